@@ -35,4 +35,104 @@ def check_getitem(n, k):
     return {"violated": False, "detail": "lookup agrees with list order"}
 
 
+def search_collections(job):
+    """sheets and tables of real documents: lookup by position and by exact name, membership ignoring case, and the adders (an explicit
+    name that is already taken - in any case - is refused, a generated name is the first free 'Sheet N' / 'Table N')"""
+    import warnings
+    from numbers_parser import Document
+    warnings.simplefilter("ignore")
+    for names in (["Alpha"], ["Alpha", "beta"], ["Alpha", "beta", "GAMMA", "Sheet 5"], ["x", "X y", "Z"]):
+        doc = Document(sheet_name=names[0])
+        for nm in names[1:]:
+            doc.add_sheet(nm)
+        for coll, what, adder in ((doc.sheets, "sheets", lambda nm=None: doc.add_sheet(nm)),):
+            items = list(coll)
+            n = len(items)
+            for k in range(-n - 2, n + 2):
+                r = None
+                try:
+                    got = coll[k]
+                except IndexError:
+                    got = IndexError
+                exp = items[k] if -n <= k < n else IndexError
+                if got is not exp:
+                    return {"violated": True, "detail": f"{what} {names}: [{k}] gave {getattr(got, 'name', got)!r}, expected {getattr(exp, 'name', exp)!r}"}
+            for i, nm in enumerate(names):
+                if coll[nm] is not items[i]:
+                    return {"violated": True, "detail": f"{what} {names}: [{nm!r}] is not item #{i}"}
+                for probe in (nm.upper(), nm.lower(), nm + " ", nm[:-1]):
+                    want_in = probe.lower() in [x.lower() for x in names]
+                    if (probe in coll) != want_in:
+                        return {"violated": True, "detail": f"{what} {names}: ({probe!r} in collection) is {probe in coll}, expected {want_in}"}
+                    if probe not in names:
+                        try:
+                            coll[probe]
+                            return {"violated": True, "detail": f"{what} {names}: [{probe!r}] returned an item although no item has exactly that name"}
+                        except KeyError:
+                            pass
+        # adders: tables of the first sheet, then sheets
+        sh = doc.sheets[0]
+        t0 = [t.name for t in sh.tables]
+        for taken in (t0[0], t0[0].upper(), t0[0].lower()):
+            try:
+                sh.add_table(taken)
+                return {"violated": True, "detail": f"tables {t0}: add_table({taken!r}) was accepted although the name is taken (ignoring case)"}
+            except IndexError:
+                pass
+        new = sh.add_table()
+        names_now = [t.name for t in sh.tables]
+        if names_now.count(new.name) != 1 or len({x.lower() for x in names_now}) != len(names_now) or sh.tables[-1] is not new:
+            return {"violated": True, "detail": f"tables {t0}: add_table() produced {new.name!r}; tables are now {names_now}"}
+        for taken in (names[0], names[0].upper(), names[-1].lower()):
+            try:
+                doc.add_sheet(taken)
+                return {"violated": True, "detail": f"sheets {names}: add_sheet({taken!r}) was accepted although the name is taken (ignoring case)"}
+            except IndexError:
+                pass
+        n_before = len(doc.sheets)
+        doc.add_sheet()
+        new = doc.sheets[-1]
+        names_now = [x.name for x in doc.sheets]
+        if len(names_now) != n_before + 1 or names_now.count(new.name) != 1 or len({x.lower() for x in names_now}) != len(names_now):
+            return {"violated": True, "detail": f"sheets {names}: add_sheet() produced {new.name!r}; sheets are now {names_now}"}
+    # generated names against siblings that differ only in case, and membership after a rename
+    for first, more in (("table 1", ["TABLE 2"]), ("Table 1", ["table 2", "Table 4"]), ("TABLE 1", [])):
+        doc = Document(table_name=first)
+        sh = doc.sheets[0]
+        for nm in more:
+            sh.add_table(nm)
+        before = [t.name for t in sh.tables]
+        sh.add_table()
+        now = [t.name for t in sh.tables]
+        if len(now) != len(before) + 1 or len({x.lower() for x in now}) != len(now):
+            return {"violated": True, "detail": f"tables {before}: add_table() produced {now[-1]!r}, which is not a new name among its siblings ignoring case"}
+    for first, more in (("sheet 1", ["SHEET 2"]), ("Sheet 1", ["sheet 2"])):
+        doc = Document(sheet_name=first)
+        for nm in more:
+            doc.add_sheet(nm)
+        before = [x.name for x in doc.sheets]
+        doc.add_sheet()
+        now = [x.name for x in doc.sheets]
+        if len(now) != len(before) + 1 or len({x.lower() for x in now}) != len(now):
+            return {"violated": True, "detail": f"sheets {before}: add_sheet() produced {now[-1]!r}, which is not a new name among its siblings ignoring case"}
+    doc = Document(sheet_name="Old")
+    doc.add_sheet("Other")
+    if "old" not in doc.sheets or "New" in doc.sheets:
+        return {"violated": True, "detail": "sheets ['Old', 'Other']: membership is wrong before any rename"}
+    doc.sheets[0].name = "New"
+    if "old" in doc.sheets or "new" not in doc.sheets:
+        return {"violated": True, "detail": f"sheets after renaming 'Old' to 'New': ('old' in sheets) is {'old' in doc.sheets}, ('new' in sheets) is {'new' in doc.sheets}"}
+    try:
+        doc.add_sheet("Old")
+    except IndexError:
+        return {"violated": True, "detail": "sheets after renaming 'Old' to 'New': add_sheet('Old') is refused although no sheet has that name any more"}
+    t = doc.sheets[0].tables[0]
+    oldn = t.name
+    t.name = "Renamed"
+    tabs = doc.sheets[0].tables
+    if oldn.lower() in tabs or "renamed" not in tabs:
+        return {"violated": True, "detail": f"tables after renaming {oldn!r} to 'Renamed': membership still answers for the old name"}
+    return {"violated": False}
+
+
 NATIVE = {}
